@@ -6,6 +6,27 @@ import os
 
 ROOT = os.path.dirname(os.path.dirname(os.path.abspath(__file__)))
 NOTES = {
+    "C01-r5-1": "resolve_all is not part of reading object syntax: C01 (getobj / stream parser values) is silent; the effect shows where the library resolves containers - caught by C06 after /Widths arrays got one indirect object referenced from several positions (builder)",
+    "C02-r5-1": "missed at first (the trailer dictionary always started on a new line); caught after tables may write it on the keyword's line",
+    "C02-r5-3": "missed at first (hybrid tables never listed the objects hidden in the /XRefStm as free); caught after half of the hybrid revisions use the 7.5.8.4 layout",
+    "C05-r5-3": "missed at first (simple fonts all had the 1/1000 glyph space); caught after a fifth of the fonts became Type 3 with /FontMatrix 1/100 or 1/512",
+    "C06-r5-2": "missed at first (Type 3 MissingWidth with a short Widths table was excluded: Tables 112 and 122 disagree); caught after the oracle accepts exactly the two values the tables justify (builder)",
+    "C07-r5-1": "missed at first; caught after /W and /W2 range entries ending at CID 65535 (builder)",
+    "C07-r5-2": "missed at first (the tag output was not driven); caught after the tag-output monitor (builder)",
+    "C07-r5-3": "missed at first; caught after CIDSystemInfo, /Registry and /Ordering may be indirect (builder)",
+    "C09-r5-3": "the page box handed to layout analysis ignores /Rotate: a page-geometry matter caught by C04 (ltpage_bbox); C09 generates no rotated pages (outside its quantification)",
+    "C10-r5-2": "a crypt-filter table shared by all handlers only shows with two encrypted documents open at once: a cross-document matter, C10 (one document at a time) is silent; caught by C12 after encrypted twins with other keys joined the pool and every collision group is interleaved round-robin",
+    "C11-r5-1": "missed at first; caught after text-sink runs pass narrow codecs (builder)",
+    "C12-r5-1": "missed at first; caught after the pool got an incremental update that replaces a member of an object stream",
+    "C12-r5-2": "missed at first; caught after two documents with different ToUnicode CMaps under the same object number joined the pool",
+    "C12-r5-3": "missed at first; caught after a document with 67000 distinct names joined the pool (the seeded bound is 65536; a different bound needs a different size)",
+    "C13-r5-2": "missed at first (stream faults were applied to the plaintext; the two partial-block cases of the thorough enumeration fell between the quick samples); caught after stored payloads are cut by 1-17 bytes (s_lencut*), sampled densely",
+    "C14-r5-3": "not a violation of C14 as stated: names and keywords of 128+ bytes are no longer interned, so two tokenizations yield equal but not identical objects; token sequences, positions and buffer-size independence - what the statement asserts - are unchanged (the check compares tokens by value)",
+    "C15-r5-1": "missed at first; caught after the numbered-run family (10-4096 existing numbered files) (builder)",
+    "C16-r5-1": "missed at first by C16 (shapes read with laparams=None; C08 caught it); caught by C16 after a quarter of the pages are also read through extract_pages with layout analysis",
+    "C16-r5-2": "missed at first; caught after ColorSpace resources spell parameterless families as one-element arrays",
+    "C17-r5-2": "missed at first (name objects were never looked up under a tree key's spelling); caught after documents share spellings between the /Dests dictionary and the name tree (builder)",
+    "C18-r5-1": "missed at first; caught after single inline filters are spelled as bare names and ASCII85 text contains EI + white space (builder); patch.diff rebased by the lead onto ff92a55, patch.orig.diff is the sub-agent's original",
     "C02-r4-1": "missed at first by C02 (cross-reference streams only used the Up filter; C03 caught it); caught by C02 after xref streams got rows with every PNG filter type under /Predictor 10-15",
     "C02-r4-2": "missed at first (every object was written 'N G obj' + LF); caught after the fallback documents vary what follows the obj keyword (nothing before a delimiter, space, tab, CR LF)",
     "C02-r4-3": "missed at first (tools/dumppdf.py -a was not driven, no object had a false-in-Python value); caught after C02 got the dumpallobjs monitor and histories with 0 / 0.0 / [] / () / <> / <<>> / false objects",
